@@ -459,7 +459,9 @@ def run_method(ctx, params, ctx_at, positional, skip, style, validator='base', e
             w2 = dict(wit, source=sib['source'], documented_names=names, documented_required=required, generated=when + '-the-other-callables-document',
                       other_callable=src)
             if sorted(names) != sorted(sib['names']) or sorted(required) != sorted(sib['required']):
-                ctx.violation('documented-names-differ-from-accepted:describes-another-callable-of-the-same-name' + etag, fam,
+                # (the method under test's own names: the other callable of that name; anything else: a defect of another kind)
+                ctx.violation('documented-names-differ-from-accepted:' + ('describes-another-callable-of-the-same-name' if sorted(names) == sorted(
+                    base_names) and sorted(names) != sorted(sib['names']) else 'other-callable-of-the-same-name-misdescribed') + etag, fam,
                               cls0 + ('sibling', when), expected_names=sib['names'], expected_required=sib['required'], **w2)
                 failed = True
                 break
